@@ -60,10 +60,13 @@ Reset == /\ Ev("reset") /\ Consume
          \* c0 is a second reference to the promised client, present only in programs that ask for it (reset.h = "c0")
          /\ hs' = [h \in Handles |-> IF h \in {"c1", "c9"} THEN [st |-> "live", den |-> "k1"]
                                      ELSE IF h = "c2" \/ (h = "c0" /\ Tr[l].h = "c0") THEN [st |-> "live", den |-> "p1"]
+                                     ELSE IF h = "c7" /\ Tr[l].new = "c7" THEN [st |-> "live", den |-> "p2"]      \* a second promised client
                                      ELSE [st |-> "none", den |-> "NULL"]]
          /\ res' = [k \in Hooks |-> IF k \in Promises THEN "UNRES" ELSE "SETTLED"]
          /\ open' = [k \in Hooks |-> 0] /\ inbr' = [k \in Hooks |-> 0] /\ shut' = [k \in Hooks |-> 0]
-         /\ weak' = [w \in Weaks |-> "NONE"] /\ pend' = [t \in Threads |-> NoOp] /\ created' = {"k1", "p1"}
+         \* programs may start with a weak reference w1 to k1 (reset.w = "w1")
+         /\ weak' = [w \in Weaks |-> IF w = "w1" /\ Tr[l].w = "w1" THEN "k1" ELSE "NONE"] /\ pend' = [t \in Threads |-> NoOp]
+         /\ created' = {"k1", "p1"} \cup (IF Tr[l].new = "c7" THEN {"p2"} ELSE {})
 
 \* ---- API call start ----
 Start == /\ Ev("start") /\ Consume
@@ -115,9 +118,10 @@ Lin(t) ==
                ELSE /\ hs' = [hs EXCEPT ![p.new] = [st |-> "live", den |-> k]]
                     /\ pend' = [pend EXCEPT ![t].lin = TRUE, ![t].result = "client"]
             /\ UNCHANGED <<res, open, inbr, shut, weak, created>>
-       [] p.op = "Fulfill" ->    \* resolve promise p1 to what handle h denotes right now (or to null)
-            /\ res["p1"] = "UNRES"
-            /\ res' = [res EXCEPT !["p1"] = IF p.h = "nil" THEN "NULL" ELSE hs[p.h].den]
+       [] p.op = "Fulfill" ->    \* resolve promise p1 (or the promise named in w) to what handle h denotes right now (or to null)
+            /\ LET pr == IF p.w \in Promises THEN p.w ELSE "p1" IN
+               /\ res[pr] = "UNRES"
+               /\ res' = [res EXCEPT ![pr] = IF p.h = "nil" THEN "NULL" ELSE hs[p.h].den]
             /\ pend' = [pend EXCEPT ![t].lin = TRUE, ![t].result = "ok"]
             /\ UNCHANGED <<hs, open, inbr, shut, weak, created>>
   /\ UNCHANGED l
